@@ -87,10 +87,15 @@ func (s *Scheduler) Schedule(g *ExecutionGraph) error {
 				err := s.runStage(stage)
 				verifRun(stage, false, err)
 				if err != nil {
+					// the error is recorded before the status that lets a loop leave: another Schedule
+					// call on the same graph (a pipeline included by two stages) returns LastError as
+					// soon as it sees every stage finished
+					if !stage.AllowFailure {
+						g.error = err
+					}
 					stage.UpdateStatus(StatusError)
 
 					if !stage.AllowFailure {
-						g.error = err
 						return
 					}
 				}
